@@ -472,13 +472,14 @@ pub open spec fn inserted<T>(m0: Seq<Seq<T>>, g: int, value: T) -> Seq<T> {
 }
 
 // ---------------------------------------------------------------- compactify (C12.V1, C10.V4)
-// `slice_iter(skip)` returns `impl Iterator<Item = &[T]>` (filter non-empty, skip, map as_ref): opaque here;
+// `slice_iter(skip)` returns `impl Iterator<Item = &[T]>` (skip `skip` generations -- a cursor counts the empty ones too --, then
+// filter non-empty, map as_ref): opaque here;
 // its behaviour against this view is the bounded native job C12.slice_iter
 pub struct SliceIter<T> { pub g: Ghost<Seq<Seq<T>>> }
 impl<T> ValuesMatrix<T> {
     #[verifier::external_body]
     pub fn slice_iter(&self, skip: GenerationIdx) -> (r: SliceIter<T>)
-        ensures r.g@ == non_empty(self@).skip(skip.0 as int)
+        ensures r.g@ == non_empty(self@.skip(skip.0 as int))
     { unimplemented!() }
 }
 impl<T> NewValuesMatrix<T> {
@@ -487,7 +488,7 @@ impl<T> NewValuesMatrix<T> {
 //@ ret r
 //@ sig 1 "impl Iterator<Item = &[T]>" => "SliceIter<T>"
 //@ spec
-        ensures r.g@ == non_empty(self@).skip(skip.0 as int)
+        ensures r.g@ == non_empty(self@.skip(skip.0 as int))
 //@ end
 }
 #[derive(Clone, Copy)]
@@ -516,6 +517,9 @@ impl<T: TracePosOperate> Stream<T> {
             lemma_non_empty_id(non_empty(old(self).previous_values@));
             lemma_non_empty_id(non_empty(old(self).current_values@));
             lemma_non_empty_id(non_empty(old(self).new_values@));
+            assert(non_empty(old(self).previous_values@).skip(0) =~= non_empty(old(self).previous_values@));
+            assert(non_empty(old(self).current_values@).skip(0) =~= non_empty(old(self).current_values@));
+            assert(non_empty(old(self).new_values@).skip(0) =~= non_empty(old(self).new_values@));
         }
 //@ spec
         requires old(self).wf(), old(self).total() <= u32::MAX
